@@ -12,12 +12,15 @@ func fail(f string, a ...any) { fmt.Printf("FIXTURE-FAIL: "+f+"\n", a...); os.Ex
 
 func main() {
 	races := 0
+	orders := map[string]bool{}
+	reflOrders := map[string]bool{}
 	for seed := uint64(1); seed <= 300; seed++ {
 		lib.SimReset()
 		var items []int
 		var how string
 		var pp int
 		var ids [3]int
+		var mapOrder, reflOrder string
 		res := simrt.Run(simrt.Config{Seed: seed, Strategy: -1, AccessStall: 0.1}, func() {
 			var wg simrt.WaitGroup
 			b := lib.NewBox(2)
@@ -59,6 +62,11 @@ func main() {
 			if v, ok := lib.RangeAssign(); v != 5 || ok {
 				panic(fmt.Sprintf("RangeAssign %d %v", v, ok))
 			}
+			o, ro, sum := lib.MapOrder()
+			if sum != 154 {
+				panic(fmt.Sprintf("MapOrder sum*10+n = %d (order %s)", sum, o))
+			}
+			mapOrder, reflOrder = o, ro
 			if !lib.ColdGlobals() {
 				panic("globals without initialiser were not reset")
 			}
@@ -86,6 +94,20 @@ func main() {
 		if a, b := lib.Hits(); a != 5 || b != 5 {
 			fail("seed %d: hits %d %d", seed, a, b)
 		}
+		orders[mapOrder] = true
+		reflOrders[reflOrder] = true
+		// the same seed twice: the same iteration orders
+		var twice [2]string
+		for r := range twice {
+			lib.SimReset()
+			simrt.Run(simrt.Config{Seed: seed, Strategy: -1}, func() {
+				o, ro, _ := lib.MapOrder()
+				twice[r] = o + "/" + ro
+			})
+		}
+		if twice[0] != twice[1] {
+			fail("seed %d: map iteration order does not replay: %s vs %s", seed, twice[0], twice[1])
+		}
 		if len(res.Races) != 0 {
 			fail("seed %d: unexpected race %v", seed, res.Races)
 		}
@@ -100,6 +122,9 @@ func main() {
 	}
 	if races < 250 {
 		fail("the captured-local race was seen in only %d of 300 runs", races)
+	}
+	if len(orders) < 20 || len(reflOrders) < 4 {
+		fail("map iteration orders are not varied by the tape: %d range orders, %d reflect orders in 300 seeds", len(orders), len(reflOrders))
 	}
 	fmt.Printf("FIXTURE-OK: 300 seeds, captured-local race flagged in %d\n", races)
 }
